@@ -426,6 +426,22 @@ class Monitor:
                     continue
                 ctx.count(f'copy.{opname}')
                 ctx.case(('copy', info.key, opname, mode))
+                if opname == 'update_from_other_container':
+                    # the known finding of this operation is about SECOND-level values (each member is copied with copy.copy()); the member
+                    # objects themselves (lists, data type instances) must be different objects in source and target
+                    same = []
+                    for name, prop in p.sorted_container_properties():
+                        try:
+                            a, b = prop.get_actual_value(p), prop.get_actual_value(c)
+                        except Exception:  # noqa: BLE001
+                            continue
+                        if a is not None and a is b and not _immutable(a):
+                            same.append(_decl_member(p, name))
+                    ctx.count('copy.update_from_other_container.members_compared')
+                    if same:
+                        ctx.witness('copy_alias.update_from_other_container.member_object_shared',
+                                    f'{info.name}: after update_from_other_container() source and target hold the very same member object(s) {same[:6]} '
+                                    '(an append / pop on one is visible in the other)', {'class': info.key, 'members': same})
                 before = canon(p)
                 if canon(c) != before and opname != 'update_from_other_container':
                     ctx.witness(f'copy_differs.{opname}.{info.name}', f'{opname} of a {info.name} is not equal to the original', {'class': info.key})
